@@ -324,6 +324,13 @@ impl Property for C09 {
     fn check(s: &Scenario) -> CheckResult {
         check(s)
     }
+    fn valid(s: &Scenario) -> bool {
+        (2..=6).contains(&s.n) && s.ops.len() <= 40 && s.ops.iter().all(|o| match o {
+            Op::SetState(_, v, _) => v.iter().all(|x| dom::finite(*x)),
+            Op::SetCommand(_, _, v, _) => dom::finite(*v),
+            _ => true,
+        })
+    }
     fn assumptions() -> Vec<String> {
         vec![
             "the hidden link is observed only through public reads: terminal i owns state 2^i, so its read identifies its partner uniquely".into(),
